@@ -29,6 +29,7 @@ type SpecEnv struct {
 	lets  []*LetDef // macros: evaluated at use in the current environment
 	litType types.Type // bv mode: type given to untyped integer literals (nil = mathematical Int)
 	freshLo, freshHi string // isfresh(x): freshLo <= rootid(x) [< freshHi]; default alloc0 / unbounded
+	loopCallBase int        // calledinloop counts call-log entries from this index on
 }
 
 type specError struct{ msg string }
@@ -1026,6 +1027,16 @@ func (e *SpecEnv) callExpr(v *ast.CallExpr) Val {
 				return r
 			}
 			return Scalar{e.c.freshConst(e.s, "nocall", e.c.ar.idxSort()), e.c.ar.idxSort(), types.Typ[types.Int]}
+		case "calledinloop":
+			// calledinloop("name"): calls logged since the loop head was entered (one iteration, at a back edge)
+			name, _ := strconv.Unquote(v.Args[0].(*ast.BasicLit).Value)
+			n := 0
+			for i, l := range e.s.calllog {
+				if i >= e.loopCallBase && l == name {
+					n++
+				}
+			}
+			return e.intLit(big.NewInt(int64(n)))
 		case "called":
 			// called("name"): number of calls logged to callee name on this path
 			name, _ := strconv.Unquote(v.Args[0].(*ast.BasicLit).Value)
